@@ -10,7 +10,7 @@ CLAIMED = {
  "C04": ("Coq theorems C04_structure (positional getChild copy = tree, all shapes), C04_stream, C04_json_roundtrip / C04_json_string_roundtrip (a Gallina JSON parser inverts the Gallina encoder on every forest with UTF-8 names; no axioms), C04_yaml_toml_partial (YAML/TOML: structure passed to the opaque encoder) + correspondence: JSON bytes compared exactly with the Gallina json_encode; JSON/YAML/TOML output decoded by standard decoders and compared with the forest over a hostile name alphabet (the YAML/TOML encoders themselves are opaque)", TECH),
  "C05": ("Coq theorems C05_visits (walk of the grown forest = top-down specification incl. Path, all forests with single-element names, all branch strings), C05_rows_are_lines, C05_visit_facts (all names), C05_first_error_stops (callback as an arbitrary oracle), C05_iter_break, C05_walk_spelled (from the bytes of any spelling) + correspondence: every stop position on enumerated forests, six entry points, compared with the extracted specification", TECH),
  "C06": ("Coq theorems C06_success (exact statement: on success the new entries are exactly the node paths, directories vs files by extension, nothing else added, nothing removed or retyped), C06_exists, C06_error_reported, C06_dirs_kept_partial over the finite-map file-system model + correspondence in a jail: pre-states with pre-existing roots, file components, over-long names; snapshot compared with the node paths computed from the forest", TECH),
- "C07": ("Coq theorem C07_rejects (every mkdir entry point, any position of a name that is empty, '.', '..' or contains '/': error and untouched file system) + correspondence: hostile names at every position, whole-scratch snapshot incl. sentinels outside the target", TECH),
+ "C07": ("Coq theorem C07_rejects (every mkdir entry point, any position of a name that is empty, '.', '..' or contains '/': error and untouched file system); C07_confined / C07_never_outside (ALL inputs and outcomes incl. partial failure: nothing existing changes, every new entry is below the target or a missing prefix of it), C07_untouched, C07_outcomes, C07_parents_kept + correspondence: hostile names at every position, whole-scratch snapshot incl. sentinels outside the target", TECH),
  "C08": ("Coq theorems C08_iff_root, C08_sound, C08_readonly over the file-system model + correspondence: arbitrary subsets/extras, file roots, missing roots, states made by mkdir, strict and non-strict, both families", TECH),
  "C09": ("Coq theorems C09_no_effect, C09_report, C09_same_verdict + correspondence: dry run followed by the real run in the same jail; counts compared with what the real run created", TECH),
  "C10": ("Coq theorems over the pipeline LTS, all scenarios and ALL schedules: C10_blocks, C10_blocks_final (sink output = complete contiguous per-root blocks, each root at most once), C10_mutex, C10_items_unique; sequential layer (model of split and the generate workers sharing one parser, tied by the msplit/mgen stage correspondence through verif hooks): C10_split_concat, C10_schedule_independent, C10_front_end (on every heading-free uniform spelling of a forest, under EVERY interleaving of the workers' parse calls the roots are the forest's tries = what simple mode builds); C10_nil_return_complete / _nothing_in_flight / _no_failure (on a nil return the written text is exactly one complete block per root, nothing in flight, no item failed), C10_error_return_exact, C10_faultless_returns_nil (error iff error); C10_massive_text (both layers composed: on a nil return the text written is the rendering of a permutation of the forest's tries); instances generated from /repo's source by the go/ast inventory scanner and re-checked on every run. Partial: that grow/spread compute each root's rendering in massive mode as in simple mode, and the Go runtime, are covered by the correspondence: massive vs simple results on uniform heading-free documents under perturbed schedules (GOMAXPROCS, hook delays, slow readers/writers/callbacks); K1-K3 are known findings", TECH + "; LTS instance generated by a go/ast translator"),
